@@ -322,6 +322,16 @@ impl<'a> FnWeaver<'a> {
                 self.params_by_value.push(!matches!(&*pt.ty, syn::Type::Reference(_)));
             }
         }
+        // X11: `this: *const Self` -> `this: &Self` (signal.rs passes the signal by raw pointer; `(*this).f` reads the
+        // same through a reference, which the verifier can follow). Drops: the raw-pointer-ness (aliasing, lifetime) -- R3.
+        for a in sig.inputs.iter() {
+            if let syn::FnArg::Typed(pt) = a {
+                let ty = squeeze(&self.src[lo(pt.ty.span())..hi(pt.ty.span())]);
+                if ty == "*constSelf" {
+                    self.rewrite("X11", lo(pt.ty.span()), hi(pt.ty.span()), "&Self".into());
+                }
+            }
+        }
         // X3: self: Pin<&mut Self>  ->  &mut self
         if let Some(syn::FnArg::Receiver(r)) = sig.inputs.first() {
             if r.colon_token.is_some() {
@@ -1004,6 +1014,11 @@ impl<'x, 'a> PassA<'x, 'a> {
                 match ws[0] {
                     "before-call" => self.w.ghost(start, format!(" {} ", t), -1),
                     "after-call" => self.w.ghost(end, format!(" {} ", t), 8),
+                    "before-stmt" => {
+                        // before the statement that contains the call: after the previous `;`, `{` or `}`
+                        let k = self.w.src[..start].rfind(|ch| ch == ';' || ch == '{' || ch == '}').map(|k| k + 1).unwrap_or(start);
+                        self.w.ghost(k, format!(" {} ", t), 8)
+                    }
                     "after-stmt" => {
                         // after the `;` that ends the statement containing the call
                         match self.w.src[end..].find(';') {
